@@ -76,6 +76,7 @@ func runC12(c *Ctx) {
 	c12ReadAfterInPlace(c, pk)
 	c12AnyURLLastSlash(c, pk)
 	c12KeptImpliesWalked(c, pk)
+	ruleSortedInvariant(c, "SORTED-INVARIANT", []*packages.Package{pk}, 2)
 	batchKeyRule(c, "BATCH-KEY")
 	c12PathIndexPositional(c, pk)
 	info := pk.TypesInfo
